@@ -2,6 +2,8 @@
 
 package rjson
 
+import "runtime"
+
 // Native definitions of the harness intrinsics, used to replay a solver model
 // against the real build: nondeterministic choices are read from vScript in
 // the order the executor made them.
@@ -60,3 +62,20 @@ func vNumOverflows(lit []byte) bool {
 	_, _, err := ReadFloat64(lit)
 	return err != nil
 }
+
+// allocation measurement for C19 replays (mallocs between watch on/off)
+var (
+	vMemStats   runtime.MemStats
+	vMallocs0   uint64
+	vAllocDelta int
+)
+
+func vAllocWatch(on bool) {
+	runtime.ReadMemStats(&vMemStats)
+	if on {
+		vMallocs0 = vMemStats.Mallocs
+	} else {
+		vAllocDelta = int(vMemStats.Mallocs - vMallocs0)
+	}
+}
+func vAllocs() int { return vAllocDelta }
